@@ -75,7 +75,10 @@ func (r *BatchedPrivateTokenRequest) Unmarshal(data []byte) bool {
 	}
 
 	l, offset := quicwire.ConsumeVarint(data[3:])
-	s.Skip(offset)
+	if offset < 0 || !s.Skip(offset) || l > uint64(len(s)) {
+		// malformed length, or a declared length beyond the input
+		return false
+	}
 	blindedRequests := make([]byte, l)
 	if !s.ReadBytes(&blindedRequests, len(blindedRequests)) {
 		return false
